@@ -104,7 +104,7 @@ theorem tls_unavailable_disconnects (cfg : Cfg) (script : List Ev) (f : Features
 def goodScript : List Ev :=
   [.connectToServer, .socketConnected, .recv (.header true true),
    .recv (.features { tls := .optional, mechs := some .plain }), .recv (.proceed true),
-   .recv (.header true true), .recv (.features { mechs := some .plain }), .recv .saslSuccess,
+   .recv (.header true true), .recv (.features { mechs := some .plain }), .recv (.saslSuccess true),
    .recv (.header true true), .recv (.features { bind := true }), .recv (.iq (.bindResult .ok))]
 
 example : Along versionedHeader (init { tls := .required, plainOk := true }) goodScript := by
